@@ -103,6 +103,14 @@ type Case struct {
 	// while the distributor sends
 	PipeSize int `json:"pipesize,omitempty"`
 	Slow     int `json:"slow,omitempty"`
+	// dimension audit (session 5): FaultAt > 0 = the request number FaultAt of the run (1-based, counted after the seeds) meets a
+	// fault of FaultKind: "err" = the target answers an error that is neither BUSYKEY nor "Bad data format"; "drop" = the target
+	// closes the connection instead of executing it; "lose" = it executes the request and closes the connection without the reply
+	FaultAt   int    `json:"faultat,omitempty"`
+	FaultKind string `json:"faultkind,omitempty"`
+	// Tick: the target's clock FOLLOWS the bubble clock (with Slow > 0 time passes between the requests): keys expire on the
+	// target DURING the run, every entry computes its TTL at a later `now`
+	Tick bool `json:"tick,omitempty"`
 }
 
 // ReservedPrefixes: key prefixes every output filters (NewRedisOutput: checkpoint and namespace keys; the bisync control keys).
@@ -317,6 +325,9 @@ func ExpireAtOf(code int) uint64 {
 		return BubbleNowMs + 1 // 1 ms ahead
 	case 5:
 		return BubbleNowMs - 1 // 1 ms past
+	}
+	if code >= 10 && code < 100 {
+		return BubbleNowMs + uint64(code-10) // a few ms ahead: expires WHILE the value is being replayed (Tick)
 	}
 	return 0
 }
@@ -1946,6 +1957,250 @@ func CheckTerminated(s *vfutil.Session, c *Case, r *Run, wantErr string) bool {
 	return true
 }
 
+// Ladder: the dimension audit's table for ONE snapshot key (followed by a key "z" that must never be reached after a
+// failure): policy x what the target holds under the key (nothing / the same type with a TTL / another type without) x path
+// (RESTORE / RESTORE refused with Bad data format / restore off / split value / dump above MaxProtoBulkLen) x where the key
+// goes (as it is / replaceHashTag / TargetDb / the EMPTY key).
+func Ladder(mode string) []*Case {
+	var out []*Case
+	for _, pol := range []string{"replace", "ignore", "error"} {
+		for held := 0; held < 3; held++ {
+			for _, path := range []string{"restore", "bad", "expand", "split", "big"} {
+				for _, where := range []string{"key", "hashtag", "tdb", "empty"} {
+					key := "lk"
+					c := &Case{Mode: mode, Pol: pol, Restore: path != "expand", MaxBulk: 1 << 29, Ver: "7.0.0"}
+					switch where {
+					case "hashtag":
+						key, c.HashTag = "{l}k", true
+					case "tdb":
+						c.TDB = 2
+					case "empty":
+						key = ""
+					}
+					kv := KVSpec{Key: vfutil.HexS(key), Type: 4, Exp: 2,
+						Items: []string{vfutil.HexS("f1"), vfutil.HexS("v1"), vfutil.HexS("f2"), vfutil.HexS("v2"), vfutil.HexS("f3"), vfutil.HexS("v3")}}
+					switch path {
+					case "split":
+						c.Thr = 1
+					case "big":
+						c.MaxBulk = 8
+					}
+					c.KVs = []KVSpec{kv, {Key: vfutil.HexS("z"), Type: 0, Str: vfutil.HexS("2")}}
+					cell := c.Cell(kv)
+					if path == "bad" {
+						c.Bad = []string{vfutil.HexS(cell.Key)}
+					}
+					switch held {
+					case 1:
+						c.Pre = []Pre{{DB: cell.DB, Key: vfutil.HexS(cell.Key), Kind: "hash", TTL: 60000}}
+					case 2:
+						c.Pre = []Pre{{DB: cell.DB, Key: vfutil.HexS(cell.Key), Kind: "string"}}
+					}
+					out = append(out, c)
+				}
+			}
+		}
+	}
+	return out
+}
+
+// ExpiryBetweenChunks: a split hash (one field per chunk) whose expiry lies d = 1..9 ms ahead while every request takes 1 ms
+// and the target's clock runs (Tick): the key expires on the target BETWEEN its chunks / the later chunks compute "already
+// past". Whatever the timing, a snapshot key with an expiry must never be left PERSISTENT (CheckExpiryKept).
+func ExpiryBetweenChunks(mode string) []*Case {
+	var out []*Case
+	for _, d := range []int{1, 2, 3, 4, 5, 6, 7, 8, 9, 12, 16, 25, 60} {
+		for _, pol := range []string{"replace", "ignore", "error"} {
+			for _, held := range []bool{false, true} {
+				if held && pol != "replace" {
+					continue
+				}
+				c := &Case{Mode: mode, Pol: pol, Restore: d%2 == 0, Thr: 1, MaxBulk: 1 << 29, Ver: "7.0.0", Slow: 1, Tick: true,
+					KVs: []KVSpec{{Key: vfutil.HexS("xb"), Type: 4, Exp: 10 + d,
+						Items: []string{vfutil.HexS("f1"), vfutil.HexS("v1"), vfutil.HexS("f2"), vfutil.HexS("v2"), vfutil.HexS("f3"), vfutil.HexS("v3"), vfutil.HexS("f4"), vfutil.HexS("v4")}},
+						{Key: vfutil.HexS("z"), Type: 0, Str: vfutil.HexS("2")}}}
+				if held {
+					c.Pre = []Pre{{Key: vfutil.HexS("xb"), Kind: "hash"}}
+				}
+				out = append(out, c)
+			}
+		}
+	}
+	return out
+}
+
+// CheckExpiryKept (clock running): the run succeeds; a snapshot key with an expiry is, at the end, gone or carries an expiry -
+// never persistent (the policy stated at bisyncRdbTTLms); the key behind it is replayed.
+func CheckExpiryKept(s *vfutil.Session, c *Case, r *Run) {
+	s.Count("mon_expiry_between_chunks")
+	if r.Final != "ok" {
+		viol(s, "unexpected-error", fmt.Sprintf("clock running, expiry a few ms ahead: replay failed with %s: %s", r.Final, r.ErrText), c)
+		return
+	}
+	for i, kv := range c.TargetKVs() {
+		k := DK{kv.DB, string(kv.Key)}
+		after := r.After[k]
+		if kv.ExpireAt != 0 {
+			if after == nil {
+				s.Count("observed_key_expired_during_run")
+			} else if after.ExpireAt == 0 {
+				viol(s, "expiry-lost", fmt.Sprintf("snapshot key %d %q has expiry %d; the target ends with the key PERSISTENT: %+v", i, k.Key, kv.ExpireAt, after), c)
+			} else {
+				s.Count("observed_key_alive_with_expiry")
+			}
+		} else if !SameVal(ExpectVal(kv, false, BubbleNowMs), after) && !SameVal(ExpectVal(kv, true, BubbleNowMs), after) {
+			viol(s, "fresh-final", fmt.Sprintf("clock running: key %q ends with %+v", k.Key, after), c)
+		}
+	}
+}
+
+// CheckFault: a request of the run met a fault (an error reply that is neither BUSYKEY nor Bad data format, a cut
+// connection, a lost reply). `clean` = the same case without the fault. (1) the replay must FAIL; (2) up to and including the
+// faulted request it sent exactly what the clean run sent; what it sent afterwards continues the clean run and names no
+// LATER snapshot key (the run stops at that entry); (3) ignore / error: a key the target held is unchanged; (4) under any
+// policy a cell the clean run leaves untouched is untouched.
+func CheckFault(s *vfutil.Session, c *Case, clean, r *Run) {
+	s.Count("mon_fault_" + c.FaultKind)
+	k := c.FaultAt
+	if len(r.Log) < k {
+		viol(s, "fault-not-reached", fmt.Sprintf("fault at request %d, the run sent %d", k, len(r.Log)), c)
+		return
+	}
+	for i := 0; i < len(r.Log); i++ {
+		if i >= len(clean.Log) || renderReq(r.Log[i]) != renderReq(clean.Log[i]) {
+			if i < k {
+				viol(s, "fault-prefix-differs", fmt.Sprintf("request %d before the fault differs from the clean run: %s", i+1, r.Log[i].String()), c)
+			} else {
+				viol(s, "fault-continued", fmt.Sprintf("after the fault at request %d the run sent %s, which the clean run does not send there", k, r.Log[i].String()), c)
+			}
+			return
+		}
+	}
+	// every request belongs to one snapshot key (SELECT / MULTI / marker: the key of the next request that names one; EXEC:
+	// of the last one before it); nothing that belongs to a LATER key than the faulted request's may follow the fault
+	order := map[string]int{}
+	for i, kv := range c.TargetKVs() {
+		if _, ok := order[string(kv.Key)]; !ok {
+			order[string(kv.Key)] = i
+		}
+	}
+	named := func(q vfdoubles.LogEntry) (int, bool) {
+		if q.Cmd() == "select" || isMarker(q) || len(q.Args) < 2 {
+			return 0, false
+		}
+		if q.Cmd() == "xgroup" && len(q.Args) >= 3 {
+			o, ok := order[string(q.Args[2])]
+			return o, ok
+		}
+		o, ok := order[string(q.Args[1])]
+		return o, ok
+	}
+	owner := func(i int) int {
+		if o, ok := named(clean.Log[i]); ok {
+			return o
+		}
+		if clean.Log[i].Cmd() == "exec" {
+			for j := i - 1; j >= 0; j-- {
+				if o, ok := named(clean.Log[j]); ok {
+					return o
+				}
+			}
+		}
+		for j := i + 1; j < len(clean.Log); j++ {
+			if o, ok := named(clean.Log[j]); ok {
+				return o
+			}
+		}
+		return len(order)
+	}
+	faulted := r.Log[k-1]
+	for i := k; i < len(r.Log); i++ {
+		if owner(i) > owner(k-1) {
+			viol(s, "fault-continued", fmt.Sprintf("after the fault at request %d (%s) the run went on to the next key: %s", k, faulted.String(), r.Log[i].String()), c)
+			return
+		}
+	}
+	cmd := faulted.Cmd()
+	swallowOK := cmd == "ping"
+	if r.Final == "ok" && !swallowOK {
+		viol(s, "fault-swallowed", fmt.Sprintf("request %d (%s) met a fault (%s), the replay reported success", k, faulted.String(), c.FaultKind), c)
+		return
+	}
+	pre := map[DK]bool{}
+	for _, p := range c.Pre {
+		pre[DK{p.DB, string(vfutil.UnHex(p.Key))}] = true
+	}
+	for _, dk := range c.Keys() {
+		if pre[dk] && r.Before[dk] != nil && (c.Pol == "ignore" || c.Pol == "error") && !SameVal(r.Before[dk], r.After[dk]) {
+			viol(s, c.Pol+"-modified", fmt.Sprintf("fault at request %d: policy %s, held key %q changed: %+v -> %+v", k, c.Pol, dk.Key, r.Before[dk], r.After[dk]), c)
+			return
+		}
+		if SameVal(clean.Before[dk], clean.After[dk]) && !SameVal(r.Before[dk], r.After[dk]) {
+			viol(s, "fault-touched", fmt.Sprintf("fault at request %d: cell %q, which the clean run leaves as it is, changed: %+v -> %+v", k, dk.Key, r.Before[dk], r.After[dk]), c)
+			return
+		}
+	}
+}
+
+// CfgStats: one counter per value of every configuration option that reaches the replay code (dimension audit).
+func CfgStats(s *vfutil.Session, c *Case) {
+	b := func(name string, v bool) { s.Count(fmt.Sprintf("cfg_%s_%v", name, v)) }
+	pol := c.Pol
+	if c.UseRaw {
+		pol = "raw:" + c.PolRaw
+	}
+	s.Count("cfg_keyExists_" + pol)
+	b("keyExistsLog", c.Log)
+	b("replayRdbEnableRestore", c.Restore)
+	b("replaceHashTag", c.HashTag)
+	b("bisync", c.Mode == "bisync" || c.Mode == "sendbisync")
+	if c.MaxBulk < 1<<20 {
+		s.Count("cfg_maxProtoBulkLen_small")
+	} else {
+		s.Count("cfg_maxProtoBulkLen_large")
+	}
+	s.Count("cfg_redisVersion_" + strings.SplitN(c.Ver, ".", 2)[0])
+	switch {
+	case c.TDB > 0:
+		s.Count(fmt.Sprintf("cfg_targetDb_%d", c.TDB-1))
+	default:
+		s.Count("cfg_targetDb_unset")
+	}
+	s.Count(fmt.Sprintf("cfg_targetDbMap_%d_pairs", len(c.DBMap)))
+	s.Count(fmt.Sprintf("cfg_replayRdbParallel_%d", c.Parallel))
+	s.Count(fmt.Sprintf("cfg_rdbPipeSize_%d", c.PipeSize))
+	s.Count(fmt.Sprintf("cfg_dbBlacklist_%d", len(c.FDB)))
+	s.Count(fmt.Sprintf("cfg_keyPrefixBlacklist_%d", len(c.FPre)))
+	switch {
+	case c.Thr == 0:
+		s.Count("cfg_chunkThreshold_production")
+	case c.Thr == 1:
+		s.Count("cfg_chunkThreshold_1")
+	default:
+		s.Count("cfg_chunkThreshold_small")
+	}
+	for _, k := range c.KVs {
+		if len(vfutil.UnHex(k.Key)) == 0 {
+			s.Count("in_empty_key")
+		}
+		if k.Type >= 1 && k.Type <= 4 && len(k.Items) == 0 {
+			s.Count("in_empty_collection")
+		}
+		s.Count(fmt.Sprintf("in_expiry_code_%d", k.Exp))
+	}
+	for _, p := range c.Pre {
+		if len(vfutil.UnHex(p.Key)) == 0 {
+			s.Count("tgt_holds_empty_key")
+		}
+		s.Count("tgt_holds_" + p.Kind)
+		b("tgt_held_has_ttl", p.TTL != 0)
+		s.Count(fmt.Sprintf("tgt_held_in_db_%d", p.DB))
+	}
+	if len(c.Pre) == 0 {
+		s.Count("tgt_empty")
+	}
+}
+
 // GenCollide: random colliding snapshots and filters (simple values: string / list / hash).
 func GenCollide(r *vfutil.Rand, mode string) *Case {
 	ty := func() int { return vfutil.Pick(r, []int{0, 1, 4, 4}) }
@@ -2264,6 +2519,7 @@ func Exhaustive(mode string) []*Case {
 // Stats registers coverage counters for one executed case.
 func Stats(s *vfutil.Session, c *Case, r *Run, src string) {
 	s.Count("case_" + src)
+	CfgStats(s, c)
 	s.Count("mode_" + c.Mode)
 	s.Count("pol_" + c.Pol)
 	if c.Restore {
